@@ -157,6 +157,10 @@ class CallMixin(ExprMixin):
         res = []
         for s, f in self.ev(e.func, st):
             argexprs = list(e.args)
+            if any(isinstance(a, ast.Starred) for a in argexprs) and not any(k.arg is None for k in e.keywords) \
+                    and not self.spec and self.find_call_model(ftext) is not None:
+                # `f(*xs)` of a modelled callee: the model sees the sequence itself as one argument
+                argexprs = [a.value if isinstance(a, ast.Starred) else a for a in argexprs]
             if any(isinstance(a, ast.Starred) for a in argexprs) or any(k.arg is None for k in e.keywords):
                 raise Unsupported("*args/**kwargs call (line %s)" % self.cur_line)
             lazy = f.ty == PYOBJ and f.t.kind == "builtin" and f.t.name in ("isinstance", "any", "all", "sum", "sorted", "list", "set", "dict", "tuple", "frozenset", "min", "max") \
